@@ -222,7 +222,7 @@ func (s *st) present(tag string, k int, id, secret string) {
 	post := s.w.Verdicts(s.l)
 	name, status := world.ErrName(err), world.ErrCode(err)
 	zz.Observe(tag+".err", name)
-	authenticated := (id == "c1" && secret == world.Secret1) || (id == "c2" && secret == world.Secret2) || id == "c3"
+	authenticated := (id == "c1" && secret == world.Secret1) || (id == "c2" && secret == world.Secret2) || id == "C1"
 
 	touched := -1 // grant whose tokens this presentation may change
 	switch {
@@ -322,6 +322,22 @@ func symAdvance() time.Duration {
 	return d
 }
 
+// symAdvanceAll: symbolic duration in [0, 45d] that stays 4s clear of the expiry instant of EVERY token the
+// ledger knows (tokens issued after an earlier advance expire at other instants than the first generation).
+func (s *st) symAdvanceAll(name string) time.Duration {
+	d := time.Duration(zz.Int(name, 0, int64(45*24*time.Hour)))
+	now := time.Now()
+	for _, t := range s.l.Toks {
+		rem := t.IssuedAt.Add(t.Lifespan).Sub(now)
+		if zz.Symbolic() {
+			// (only a constraint on the solver's choice: natively the clock drifts by milliseconds, far
+			// less than the 4 s margin, so the replayed value stays in the same class)
+			zz.Assume(zz.Or(d < rem-4*time.Second, d > rem+4*time.Second))
+		}
+	}
+	return d
+}
+
 // caller returns the credentials of the next token-endpoint caller: symbolic strings, or (narrow) one of
 // three concrete callers: c1, c2, c1 with a wrong secret.
 func caller(narrow bool) (id, secret string) {
@@ -351,7 +367,7 @@ func (s *st) freeOp(tag string, narrow bool) {
 		s.revoke(s.l.Toks[k], s.client[zz.Choice("revoker", 2)])
 	case 3:
 		s.cover("free:advance")
-		zz.Advance(symAdvance())
+		zz.Advance(s.symAdvanceAll("advance"))
 	}
 }
 
@@ -371,7 +387,7 @@ func run(hybrid, jwt bool, maxRefresh, freeOps int, extraGrant bool) {
 		}
 	}}), l: &world.Ledger{}, unsure: map[int]bool{}}
 	// a registered PUBLIC client (identified without a secret) that owns no grant here
-	s.w.Store.Clients["c3"] = &fosite.DefaultClient{ID: "c3", Public: true, GrantTypes: []string{"authorization_code", "refresh_token"},
+	s.w.Store.Clients["C1"] = &fosite.DefaultClient{ID: "C1", Public: true, GrantTypes: []string{"authorization_code", "refresh_token"},
 		RedirectURIs: []string{"https://c1.example/cb", "https://c2.example/cb"}, ResponseTypes: []string{"code"}, Scopes: []string{"offline", "photos", "mail", "openid"}}
 	g0 := s.authorize("c1", hybrid)
 	g1 := s.authorize("c2", false)
@@ -395,6 +411,9 @@ func run(hybrid, jwt bool, maxRefresh, freeOps int, extraGrant bool) {
 		s.freeOp("first-redeem", true)
 	}
 	s.freeOp("free-redeem", false)
+	// time may pass before the replay (e.g. beyond the lifetimes of the FIRST generation while a refreshed
+	// generation is still alive)
+	zz.Advance(s.symAdvanceAll("pre-replay-advance"))
 	// present the same code again: any caller
 	id, secret := caller(narrow)
 	s.present("replay", g0, id, secret)
